@@ -251,9 +251,16 @@ fn check_faults(t: &mut Tally, text: &str) {
         t.validated += 1;
         t.transitions += 1;
         let case = || json!({"bytes": bytes_json(&bytes)});
+        // a line that is not UTF-8: failing the read is one admissible answer; the statement does
+        // not list it among the causes of failure, so a reader that decodes lossily is admissible
+        // too - but then the list must be the complete, unshifted one for the decoded text
         match guard(|| read_all(&bytes)) {
             Ok(Err(_)) => t.outcome("fault/invalid-utf8-rejected"),
-            Ok(Ok(g)) => t.violation(Violation::new("utf8", case(), json!("Err"), json!(format!("Ok, {} records", g.len())), "a line that is not UTF-8 is a read error; the read must fail as a whole")),
+            Ok(Ok(g)) => match model(&String::from_utf8_lossy(&bytes)) {
+                Ok(Some(w)) if w == g => t.outcome("fault/invalid-utf8-decoded-lossily"),
+                Ok(None) => t.outcome("skipped/leading-ignorable-block"),
+                w => t.violation(Violation::new("utf8", case(), json!(format!("Err, or {:?}", w)), json!(format!("Ok({:?})", g)), "a line that is not UTF-8 must either fail the read as a whole or be read completely; never a partial or shifted list")),
+            },
             Err(m) => t.violation(Violation::new("utf8", case(), json!("Err"), json!(format!("panic: {}", m)), "reader panicked")),
         }
     }
@@ -316,6 +323,29 @@ fn main() {
         }
         t.sample(run.seed, s.iter().fold(1u64, |a, x| a * 31 + *x as u64), || json!({"text": text}));
     });
+    // the base alphabet plus: empty and blank-only scalar values, unknown keys that extend or
+    // case-fold a known key, a scalar reset to empty after a value
+    {
+        let mut lines2: Vec<&str> = LINES.to_vec();
+        lines2.extend([
+            "MAINTAINER=", "PKG_SKIP_REASON=  ", "CATEGORIES=", "PKG_LOCATION=", "PBULK_WEIGHT=",
+            "PKGNAMEX=zz-9", "PKGNAME_OLD=b-2", "pkgname=z-1", "maintainer=zz", "XMAINTAINER=q", "MAINTAINERS=q", "Maintainer=q", "ALL_DEPENDSX=bad", "all_depends=bad", "PKG_LOCATIONS=nope",
+            "PKGNAME=", "=PKGNAME=a-1", "PKGNAME", "PKGNAME=d-4=5",
+        ]);
+        let n2 = run.pick(3, 4);
+        run.bound(format!("all {} sequences of <= {} lines over the base alphabet plus {} lines (empty scalar values, unknown keys extending or case-folding known keys)", seqs::count(lines2.len(), n2), n2, lines2.len() - LINES.len()));
+        seqs::par_seqs(&run, "C16 extended", lines2.len(), n2, 2, |_| false, |s, t| {
+            if s.iter().all(|i| *i < LINES.len()) {
+                return; // covered by the deep enumeration
+            }
+            let mut text = String::new();
+            for i in s {
+                text.push_str(lines2[*i]);
+                text.push('\n');
+            }
+            check_text(t, &text);
+        });
+    }
     // scale: hundreds of records, hundreds of list items, lines longer than the reader's buffer
     {
         let mut t = Tally::new();
